@@ -70,7 +70,7 @@ class x12xml_simple(x12xml):
             child_node = seg_node.get_child_node_by_idx(i)
             if child_node is None:
                 # more elements than the segment defines (reported as an error): keep the data, named by position
-                ele_data = seg_data.get('%02i' % (i + 1))
+                ele_data = seg_data.elements[i]
                 ele_id = '%s%02i' % (seg_node.id, i + 1)
                 if ele_data.is_empty():
                     pass
@@ -85,12 +85,12 @@ class x12xml_simple(x12xml):
                     (xname, attrib) = self._get_ele_info(ele_id)
                     self.writer.elem(xname, ele_data.format(), attrib)
                 continue
-            if child_node.usage == 'N' or seg_data.get('%02i' % (i + 1)).is_empty():
+            if child_node.usage == 'N' or seg_data.elements[i].is_empty():
                 pass  # Do not try to ouput for invalid or empty elements
             elif child_node.is_composite():
                 (xname, attrib) = self._get_comp_info(seg_node_id)
                 self.writer.push(xname, attrib)
-                comp_data = seg_data.get('%02i' % (i + 1))
+                comp_data = seg_data.elements[i]
                 for j in range(len(comp_data)):
                     subele_node = child_node.get_child_node_by_idx(j)
                     if subele_node is None:
@@ -102,12 +102,12 @@ class x12xml_simple(x12xml):
                     self.writer.elem(xname, comp_data[j].get_value(), attrib)
                 self.writer.pop()  # end composite
             elif child_node.is_element():
-                if seg_data.get_value('%02i' % (i + 1)) == '':
+                if seg_data.elements[i].format() == '':
                     pass
                     #self.writer.empty(u"ele", attrs={u'id': child_node.id})
                 else:
                     (xname, attrib) = self._get_ele_info(child_node.id)
-                    self.writer.elem(xname, seg_data.get_value('%02i' % (i + 1)), attrib)
+                    self.writer.elem(xname, seg_data.elements[i].format(), attrib)
             else:
                 raise EngineError('Node must be a either an element or a composite')
         self.writer.pop()  # end segment
